@@ -241,8 +241,10 @@ def rt_inline(depth=3):
         lambda t: f"<{t[0]}"
         + ((" " + render_attrs(t[1], t[3])) if t[1] else "")
         + f">{t[2]}</{t[0]}>")
-    link_plain = st.tuples(word, st.lists(plain, max_size=3)).map(
-        lambda t: "[[" + "|".join([t[0]] + t[1]) + "]]")
+    # a link trail ([[dog]]s, [[a|b]]ing) is part of the LINK node
+    trail = st.sampled_from(["", "", "s", "ing", "és", "S"])
+    link_plain = st.tuples(word, st.lists(plain, max_size=3), trail).map(
+        lambda t: "[[" + "|".join([t[0]] + t[1]) + "]]" + t[2])
     magic = st.sampled_from(["{{PAGENAME}}", "{{NAMESPACE}}", "{{!}}"])
     empty_el = st.tuples(st.sampled_from(["span", "div", "br", "td"]),
                          attrs(2)).map(
@@ -257,8 +259,8 @@ def rt_inline(depth=3):
 
     italic = seq(l0).map(lambda s: f"''{s}''")
     bold = seq(st.one_of(l0, l0, italic)).map(lambda s: f"'''{s}'''")
-    link_fancy = st.tuples(word, seq(st.one_of(plain, template))).map(
-        lambda t: f"[[{t[0]}|''{t[1]}'']]")
+    link_fancy = st.tuples(word, seq(st.one_of(plain, template)), trail).map(
+        lambda t: f"[[{t[0]}|''{t[1]}'']]{t[2]}")
     span_fancy = st.tuples(st.sampled_from(PAIRED_INLINE_TAGS), attrs(),
                            seq(st.one_of(l0, italic, bold))).map(
         lambda t: f"<{t[0]}"
